@@ -119,3 +119,32 @@ package server
 //@ ensures result == nil ==> q.requiredAcks == 0 || q.commitOffset.v >= offset
 //@ preserves fields(quorumAckTracker), fields(util.BitSet), fields(map[int64]*server/util.BitSet), fields(cursorAcker)
 //@ note trusted: blocks on a channel fed by a concurrent.Once callback; OnComplete is invoked only with commit >= offset (asserted at both invocation sites: WaitForCommitOffsetAsync, notifyCommitOffsetAdvanced) and commit never decreases (ack, AdvanceHeadOffset); channels and goroutines are outside the verified subset
+
+// ---------------------------------------------------------------- secondary indexes (C15)
+
+// A complete index key is __oxia/idx/<index>/<secondary key>\x01<escaped primary key>.
+//@ define inIndex(k string, name string) bool = strHasPrefix(k, "__oxia/idx/" + name + "/")
+
+//@ ghostfun idxPk(string) string
+//@ ghostfun idxSk(string) string
+
+//@ func secondaryIndexPrimaryAndSecondaryKey
+//@ trusted
+//@ pure
+//@ ensures err == nil ==> primaryKey == idxPk(completeKey) && secondaryKey == idxSk(completeKey)
+//@ ensures err != nil ==> primaryKey == ""
+//@ note trusted: regexp and url.PathUnescape are outside the verified subset; both error paths return an empty primary key
+
+// A get on a secondary index answers only with an entry of that index.
+//
+//@ func doSecondaryGet
+//@ property C15
+//@ requires db != nil && req != nil && req.SecondaryIndexName != nil
+//@ ensures primaryKey != "" ==> exists k string :: inIndex(k, *req.SecondaryIndexName) && primaryKey == idxPk(k) && secondaryKey == idxSk(k)
+//@ modifies *
+
+// the deferred closer of doSecondaryGet
+//@ func doSecondaryGet$1
+//@ property C15
+//@ requires it != nil
+//@ modifies nothing
